@@ -2,6 +2,8 @@
 
 from __future__ import annotations
 
+import json
+
 from collections import Counter
 
 from hypothesis import strategies as st
@@ -23,7 +25,7 @@ RULE = (
 ASSUMPTIONS = ["B satisfies insert_hugr's documented precondition (parents have smaller indices than their children)"]
 
 
-def check_mapping(a, b, parent, mapping, before_a, before_b) -> list[Fail]:
+def check_mapping(a, b, parent, mapping, before_a, before_b, real_handles=True) -> list[Fail]:
     """a: host after insertion; before_a/before_b: snapshots taken before."""
     f: list[Fail] = []
     nodes_a0, links_a0 = before_a
@@ -54,6 +56,10 @@ def check_mapping(a, b, parent, mapping, before_a, before_b) -> list[Fail]:
             f.append(Fail("image", "metadata", f"B node {bi}: {got[3]} want {meta}"))
         if got[5] != nout:
             f.append(Fail("image", "num-out-ports", f"B node {bi}: {got[5]} want {nout}"))
+        # the handles given back (mapping values, children listings) expose the node's metadata too
+        hv = next((v for k, v in mapping.items() if k.idx == bi), None)
+        if real_handles and hv is not None and json.dumps(hv.metadata, sort_keys=True, default=repr) != meta:
+            f.append(Fail("image", "handle-metadata", f"B node {bi}: handle says {hv.metadata}, node has {meta}"[:300]))
     if nodes_a1[parent][2] != nodes_a0[parent][2] + [mp[root_b]]:
         f.append(Fail("image", "root-not-last-child", f"children of parent {nodes_a1[parent][2]}"))
     want_links = Counter()
@@ -77,6 +83,23 @@ def check_mapping(a, b, parent, mapping, before_a, before_b) -> list[Fail]:
     if set(nodes_a1) != set(nodes_a0) | imgset:
         f.append(Fail("host", "node-set", f"{sorted(nodes_a1)}"))
     return f
+
+
+def check_orphans(case) -> list[Fail]:
+    """B lost a container whose children are still there (delete_node keeps descendants): those nodes have no
+    parent to map, so no embedding exists; insert_hugr must refuse rather than hang them somewhere."""
+    a, am, ah = store.build(case["a"])
+    b, bm, bh = store.build(case["b"])
+    conts = [i for i in bm.live() if i != bm.root and bm.nodes[i]["children"]]
+    if not conts:
+        raise InvalidCase("no container to delete")
+    b.delete_node(bh[conts[case["parent"] % len(conts)]])
+    live = am.live()
+    try:
+        a.insert_hugr(b, ah[live[case["parent"] % len(live)]])
+    except Exception:  # noqa: BLE001 - refused (ParentBeforeChild on the pinned tree)
+        return []
+    return [Fail("orphans", "embedded-without-their-parent", "insert_hugr returned a mapping for a HUGR holding nodes whose parent was deleted")]
 
 
 def check_raw(case) -> list[Fail]:
@@ -234,7 +257,7 @@ def check_wrapper(case) -> list[Fail]:
     for (s, so, d, do), c in extra.items():
         for _ in range(c):
             h.delete_link(OutPort(Node(s), so), InPort(Node(d), do))
-    f += [Fail(x.clause, f"{kind}:{x.locus}", x.msg) for x in check_mapping(h, b.hugr, host.parent_node.idx, mapping, sa, sb)]
+    f += [Fail(x.clause, f"{kind}:{x.locus}", x.msg) for x in check_mapping(h, b.hugr, host.parent_node.idx, mapping, sa, sb, real_handles=False)]
     if store.snapshot(b.hugr) != sb:
         f.append(Fail("source", f"{kind}:modified", "B changed"))
     return f
@@ -255,5 +278,7 @@ wrapper_strategy = st.fixed_dictionaries(
 
 SUBS = [
     Sub("raw", check_raw, fuzz_runs=1500, strategy=raw_strategy, nontrivial=nt_raw, classes=lambda c: sorted(b_flags(c)[0]), n_quick=1600, n_thorough=4000),
+    Sub("orphans", check_orphans, strategy=lambda tier: st.fixed_dictionaries({"a": st.fixed_dictionaries({"root": st.just("dfg"), "steps": st.lists(store.step_strategy(False), max_size=6)}), "b": store.churn_strategy(14).map(lambda c: dict(c, steps=[x for x in c["steps"] if x[0] != "delete_node"])), "parent": st.integers(0, 20)}),
+        nontrivial=lambda c: True, n_quick=150, n_thorough=800),
     Sub("wrappers", check_wrapper, strategy=lambda tier: wrapper_strategy, nontrivial=lambda c: len(c["row"]) >= 1, classes=lambda c: [c["kind"], "host:" + c.get("host", "dfg")], n_quick=500, n_thorough=2000),
 ]
